@@ -115,6 +115,49 @@ def main():
                         bad(st, cname, pf, "NUL-terminated content reads %r" % (getattr(obj, pf),))
             del obj
 
+    # ------------------------------------------------------------------ 1b. NULL in every pointer-valued field
+    st = stage("null-pointers")
+    def py_is_null(v):
+        if v is None: return True
+        if isinstance(v, int): return v == 0
+        try: return not bool(v)
+        except Exception: return None
+    def scan_nulls(obj, cname, base_addr, label):
+        """every pointer / function-pointer field of obj: python's view of NULL-ness equals the raw C member's"""
+        for cs, pf, cm in pairs.get(cname, []):
+            ck = job["ckind"].get(cs, {}).get(cm, "other")
+            if cm not in co.get(cs, {}): continue
+            if ck in ("ptr", "funptr"):
+                out["checked"][st] += 1
+                rawp = ctypes.c_void_p.from_address(base_addr + co[cs][cm][0]).value
+                try:
+                    v = getattr(obj, pf)
+                    isn = py_is_null(v)
+                except Exception as e:
+                    bad(st, cname, pf, "%s: reading the field raised %r (C member is %s)" % (label, e, "NULL" if not rawp else hex(rawp))); continue
+                if isn is None or isn != (not rawp):
+                    bad(st, cname, pf, "%s: C member %s.%s is %s; python reads %r" % (label, cs, cm, "NULL" if not rawp else hex(rawp), v))
+            elif ck.startswith("struct:") and hasattr(cls_of.get(cname), pf):
+                sub = getattr(obj, pf)
+                if isinstance(sub, ctypes.Structure) and type(sub).__name__ in pairs:
+                    scan_nulls(sub, type(sub).__name__, base_addr + co[cs][cm][0], label + "." + pf)
+    cls_of = classes
+    for cname, lst in pairs.items():            # all-zero objects of every class
+        cls = classes[cname]; cs = lst[0][0]
+        if cs not in co: continue
+        buf = (ctypes.c_ubyte * (max(csz[cs][0], ctypes.sizeof(cls)) + 64))()
+        obj = cls.from_buffer(buf)
+        scan_nulls(obj, cname, ctypes.addressof(buf), "zeroed " + cname)
+        del obj
+    for N in (0, 2):                            # live simulations: fresh (most pointers NULL) and after use
+        sim = rebound.Simulation()
+        for i in range(N): sim.add(m=1. + i, x=float(i), hash="h%d" % i)
+        if N:
+            sim.integrator = "whfast"; sim.dt = 0.01; sim.step(); sim.add_variation(); sim.particles["h1"]
+        scan_nulls(sim, "Simulation", ctypes.addressof(sim), "live simulation N=%d" % N)
+        for j in range(N):
+            scan_nulls(sim.particles[j], "Particle", ctypes.addressof(sim.particles[j]), "live particle %d" % j)
+
     # ------------------------------------------------------------------ 2. smallest containers
     st = stage("small-N")
     off_pp = co["reb_simulation"]["particles"][0]; off_N = co["reb_simulation"]["N"][0]
@@ -273,6 +316,18 @@ def main():
                     bad(st, dname, good, "after %s = %r, setting %r stores %d / reads back %r" % (path, wrong, good, ctypes.c_int.from_address(base + off).value, getattr(holder, prop)))
             except Exception as e:
                 bad(st, dname, good, "after %s = %r, setting %r raised %r" % (path, wrong, good, e))
+        # setting an option to the value it already has changes no byte at all
+        for nm in sorted(dicts[dname]):
+            out["checked"][st] += 1
+            try:
+                setattr(holder, prop, nm)
+                before = ctypes.string_at(base, simsize)
+                setattr(holder, prop, nm); setattr(holder, prop, dicts[dname][nm])
+                after = ctypes.string_at(base, simsize)
+                if before != after or getattr(holder, prop) != nm:
+                    bad(st, dname, nm, "%s = %r set again (by name and by value) changed bytes %s / reads back %r" % (path, nm, [i for i in range(simsize) if before[i] != after[i]][:6], getattr(holder, prop)))
+            except Exception as e:
+                bad(st, dname, nm, "%s = %r twice raised %r" % (path, nm, e))
         # case / whitespace variants the setters promise to accept (lower(); kernel/saba/eos also strip blanks and parentheses)
         mode = [r for r in job["doc_rules_full"] if r[0] == path][0][4]
         variants = []
@@ -319,11 +374,12 @@ def main():
                     bad(st, "Simulationarchive", "getSimulation", "single snapshot at %r: getSimulation(%r).t = %r" % (t0, t0, g.t))
             except Exception as e:
                 bad(st, "Simulationarchive", "getSimulation", "single snapshot at %r: getSimulation(%r) raised %r" % (t0, t0, e))
-            for tq in (math.nextafter(t0, math.inf), math.nextafter(t0, -math.inf), float("nan"), float("inf")):
+            # (a NaN request is deliberately not probed: what a time lookup does with NaN is not part of C18)
+            for tq in (math.nextafter(t0, math.inf), math.nextafter(t0, -math.inf), float("inf")):
                 out["checked"][st] += 1
                 try:
                     g = sa.getSimulation(tq)
-                    bad(st, "Simulationarchive", "getSimulation(nan)" if tq != tq else "getSimulation", "single snapshot at %r: getSimulation(%r) outside [tmin, tmax] returned a simulation at t=%r" % (t0, tq, g.t))
+                    bad(st, "Simulationarchive", "getSimulation", "single snapshot at %r: getSimulation(%r) outside [tmin, tmax] returned a simulation at t=%r" % (t0, tq, g.t))
                 except ValueError:
                     pass
                 except Exception as e:
@@ -383,6 +439,22 @@ def main():
                     bad(st, "Variation", "lrescale", "lrescale = %r: C holds %r, reads back %r" % (val, got, v.lrescale))
         except Exception as e:
             bad(st, "Variation", "add_variation", "N=%d: raised %r" % (N, e))
+    # a variation set on an EMPTY simulation: either refused with an exception or a consistent empty view; never foreign memory
+    sim = rebound.Simulation()
+    out["checked"][st] += 1
+    try:
+        v = sim.add_variation()
+        b = ctypes.addressof(sim)
+        if ctypes.c_uint.from_address(b + co["reb_simulation"]["N"][0]).value != 0:
+            bad(st, "Variation", "add_variation", "N=0: add_variation created particles")
+        try:
+            n_ = len(v.particles)
+            if n_ != 0:
+                bad(st, "Variation", "particles", "N=0: the view has %d elements" % n_)
+        except (ValueError, AttributeError):
+            pass        # NULL particle array: refusing is fine
+    except Exception:
+        pass
     # the last particle as a test particle; a test-particle index out of range must not hand out foreign memory
     sim = rebound.Simulation()
     for i in range(3): sim.add(m=1.0 + i, x=float(i))
